@@ -101,7 +101,7 @@ Definition st_rel (ov : option compvec) (s : cvstate) : Prop :=
 Definition cvop_operands_ok (o : cvop) : Prop :=
   match o with
   | CNew w => w < W
-  | CWithCapacity capa w => capa < W /\ w < W /\ (wok w = true -> capa * w < W)
+  | CWithCapacity capa w => capa < W /\ w < W /\ (wok w = true -> capa * w + 64 < W)
   | CFromInt val len w => val < W /\ len < W /\ w < W
   | CFromSlice l => Forall (fun x => x < W) l
   | CPush x => x < W
@@ -267,7 +267,7 @@ Qed.
 Definition cvop_operands_okb (o : cvop) : bool :=
   match o with
   | CNew w => w <? W
-  | CWithCapacity capa w => (capa <? W) && (w <? W) && implb (wok w) (capa * w <? W)
+  | CWithCapacity capa w => (capa <? W) && (w <? W) && implb (wok w) (capa * w + 64 <? W)
   | CFromInt val len w => (val <? W) && (len <? W) && (w <? W)
   | CFromSlice l => forallb (fun x => x <? W) l
   | CPush x => x <? W
